@@ -10,57 +10,91 @@ ENGINE = "walk"
 LEAN_MODULES = ["RtoscModel.Props.C09"]
 THEOREMS = ["Rtosc.Walk.walk_eq_enumerate_partial", "Rtosc.Walk.walk_eq_enumerate_root_partial",
             "Rtosc.Walk.walk_eq_enumerate_counterexample", "Rtosc.Walk.walk_eq_code", "Rtosc.Walk.enumerate_count",
+            "Rtosc.Walk.enumerate_nodup", "Rtosc.Walk.walk_reports_exactly_once",
             "Rtosc.Walk.walk_restores_buffer", "Rtosc.Walk.walk_restores_buffer_root",
             "Rtosc.Walk.walked_address_dispatches", "Rtosc.Walk.walked_address_dispatches_only",
             "Rtosc.Walk.apart_of_headsApart",
-            "Rtosc.Walk.walk_prunes_partial", "Rtosc.Walk.walk_prunes_gate", "Rtosc.Walk.walk_prunes_toggle",
-            "Rtosc.Walk.walk_prunes_subport_toggle",
+            "Rtosc.Walk.walk_prunes", "Rtosc.Walk.walk_prunes_partial", "Rtosc.Walk.walk_prunes_gate",
+            "Rtosc.Walk.walk_prunes_toggle", "Rtosc.Walk.walk_prunes_subport_toggle", "Rtosc.Walk.walk_scratch_limit",
             "Rtosc.Walk.walk_needs_room", "Rtosc.Walk.empty_buffer_needs_zero", "Rtosc.Walk.leading_hash_literal"]
 HARNESS = {"src": ["walk.cpp"], "deps": ["common.h", "walk_rt.h"]}
-RULE = ("W (runtime == NULL, dynamic tables, names and the caller's buffer in exact-size heap blocks): random port trees of "
-        "depth 1..4 with 1..4 rows per table; names head #N text … ['/'] [:types] with 0..2 enumerations in sub-tree names "
-        "(N in 1..3, sometimes 10..12), text behind a number '/b', 'b', '/c/d' or nothing, multi-component names such as "
-        "a#3/b#2/c/; leaves with 0, 1 and (rarely, finding C09-K1) 2 enumerations, trailing '/', the type parts none ':i' "
-        "'::i' ':s:' '::T:F' ':'; 7% of the sub-tree names without their trailing '/' as in test/walk-ports.cpp (enumeration and buffer are "
-        "judged, dispatch is not: such a port cannot be dispatched into; not covered by the theorems); siblings with prefix-unrelated heads (strict dispatch check) and, in a 'messy' share, clashing "
-        "ones (weak dispatch check); buffers holding the prefixes '' (all-zero / second byte zero then junk) '/' '/pre/' '/p' "
-        "and a long one, junk bytes behind the terminator, of exactly the needed size (half of the cases) or larger; the "
-        "options expand_bundles=false and ranges=true (model comparison only); a malformed stream (sub-tree names without "
-        "'/', '#0', '#' first, '##', ':' in front of '#', '#' without digits) in zeroed ample buffers (model comparison "
-        "only).  R (runtime object): the three compiled trees of harness/walk_rt.h (rRecur/rRecurp/rRecurs/rRecursp/rSelf/"
-        "rEnabledBy — at the level of the guarded port, inside the guarded sub-tree, and on a table's own self: port —, depth "
-        "3, about 100 leaves) under random assignments of every toggle and every pointer.  For every reported "
-        "pair the address is sent back through Ports::dispatch.  non-trivial: the tree has a '#' or a sub-table; distinct = "
-        "distinct op line")
+RULE = ("W (runtime == NULL, dynamic tables, every name in an exact-size heap block): random port trees of depth 1..4 with "
+        "1..4 rows per table; names head #N text … ['/'] [:types] with 0..2 enumerations in sub-tree names (N in 1..3, "
+        "10..12, and 100/101/128/130: three-digit indices; leaves also N = 0), text behind a number '/b', 'b', '/c/d' or "
+        "nothing, multi-component names such as a#3/b#2/c/; leaves with 0, 1 and (rarely, finding C09-K1) 2 enumerations, "
+        "trailing '/', the type parts none ':i' '::i' ':s:' '::T:F' ':'; 7% of the sub-tree names without their trailing '/' "
+        "as in test/walk-ports.cpp (enumeration and buffer are judged, dispatch is not: such a port cannot be dispatched "
+        "into; not covered by the theorems); siblings with prefix-unrelated heads (strict dispatch check) and, in a 'messy' "
+        "share, clashing ones (weak dispatch check); buffers holding the prefixes '' (second byte zero, then junk) '/' "
+        "'/pre/' '/p' and a long one, junk bytes behind the terminator, the block holding the longest address, its "
+        "terminator and 32..72 spare bytes; default options only (expand_bundles=false and ranges=true are not part of the "
+        "statement and not generated).  R (runtime object): the four compiled trees of harness/walk_rt.h built with the "
+        "real macros rRecur/rRecurp/rRecurs/rRecursp/rSelf/rEnabledBy — guards by a toggle at the level of the guarded "
+        "port, inside the guarded sub-tree (x/t), on a table's own self: port, on every element of an rRecurs; guards by an "
+        "integer parameter (rParamI: answers 0, 1, 2, 256, -1, INT_MIN, INT_MAX) on a sub-tree and on a self: port; member "
+        "names with digits in front of the '#' (s0x#2/, k1p#2/); enumerations of 11 and 12 elements; depth 3, about 250 "
+        "leaves — under random assignments of every toggle, integer and pointer; table addresses '' '/' '/zz/' '/a0/b/' and, "
+        "in 10% of the cases, 250..985 characters long; buffer_size equal to or smaller than the block, down to the address "
+        "of the toggle plus terminator plus 0..4 for a flat table that switches itself off.  D (runtime object on random "
+        "trees): the random trees of W (strict names, depth 2..4, no K1 leaf) with 'enabled by' properties put on them — on "
+        "a table's own self: port (35% of the tables, at any depth), on sub-tree ports of one path component (60%): naming "
+        "a row of the same table or, for names without '#', a row of the sub-tree's own table (name/port); enabling ports "
+        "q<nn>::T:F and q<nn>::i — walked with a random abstract object (15% NULL children, answers F / 0 in a third of "
+        "the cases) that the harness' own callbacks serve to the library's \"pointer\" and \"enabled by\" queries.  For every reported pair the "
+        "address is sent back through Ports::dispatch.  Reported pairs are compared as multisets (sorted by harness and "
+        "driver); the report of an enabling port inside the table it switches off, which the statement leaves open, is "
+        "named in the op line (opt=) and dropped by both sides.  non-trivial: the tree has a '#' or a sub-table; distinct "
+        "= distinct op line")
 ASSUMPTIONS = ["port names have the form head #N1 text1 … #Nk textk ['/'] [:types]: literal text without NUL # { * :, numbers "
                "below 2^31, text behind a number not beginning with a digit and empty only at the end; a sub-tree name begins "
                "with text, ends in '/' and has every N >= 1 ({} alternatives in port names are not expanded by the walker and "
                "are outside the property)",
                "generated names use bytes 1..126 only (Ports::refreshMagic indexes a 127-entry table with the name's chars)",
-               "the caller's block holds the longest address formed plus its terminator (buffer_size itself is never looked "
-               "at by walk_ports); an empty buffer has a second NUL byte (ports.h asks for an all-zero buffer)",
+               "the library is built with NDEBUG (as the default build is): walk_ports_recurse asserts old_end - name_buffer "
+               "<= 255, walk_ports_recurse0 and bundle_foreach assert 32 resp. 17 spare bytes in buffer_size; with the asserts "
+               "compiled in, a walk with a runtime object below an address longer than 255 characters or with a tight "
+               "buffer_size aborts",
+               "the caller's block holds the longest address the walk writes into it plus its terminator (theorems: exactly "
+               "that; generated cases: 32 or more spare bytes, how much spare room a walk may use is not part of the "
+               "statement); buffer_size itself is never looked at by the walk (with fixes/C09-enabled-loc-copy-size.patch; "
+               "before it the address of a reported enabling port depended on it); an empty buffer has a second NUL byte "
+               "(ports.h asks for an all-zero buffer)",
                "dispatch of a reported address: every digit run of the address is below 2^31 (C05's IdxBounded); 'only the "
                "reported port' needs sibling names that do not answer to a common address",
-               "runtime clause: 'enabled by' names a toggle of the table that contains the guarded port, or (form "
-               "name/toggle) of the guarded sub-tree's own table; the query path (get_value_from_runtime, Capture, the callbacks) is tied by correspondence only; "
-               "addresses shorter than 1000 characters (walk_ports_recurse copies into char[1024])",
-               "expand_bundles=false / ranges=true are compared with the model but are not part of the statement"]
+               "runtime clause: 'enabled by' names a port of the table that contains the guarded port, or (form name/port, "
+               "only for a sub-tree name without '#': port_is_enabled compares the texts of the names) of the guarded "
+               "sub-tree's own table; that port answers T, F or an integer (non-zero = enabled); sub-tree names of one path "
+               "component (\"../\" removes one component); the query path (get_value_from_runtime, Capture, the callbacks) "
+               "is tied by correspondence only; addresses up to 1014 characters (walk_ports_recurse copies the address and "
+               "\"pointer\" into char[1024]; generated: up to 1000)",
+               "the statement fixes no order of the reports and says nothing about the report of an enabling port that sits "
+               "inside the table it switches off (ports.cpp: 'an enabling port must always be traversed'): the oracle accepts "
+               "that report and its absence, the model (which makes it) is compared without it"]
 TRUSTED = ["hand-written model RtoscModel/Walk/{Buf,Model}.lean of walk_ports, walk_ports_recurse0, walk_ports_recurse, "
            "port_is_enabled, bundle_foreach, scat (with fixes/C09-recurse0-strchr, C09-recurse0-index-text, "
-           "C09-enabled-subport-runtime applied), and of atoi / snprintf(\"%d\") / strlen as used there",
+           "C09-enabled-subport-runtime, C09-enabled-loc-copy-size applied), and of atoi / snprintf(\"%d\") / strlen as used there",
            "C05's model of rtosc_match (dispatch of the reported addresses), C17's model of the metadata reader, C18's models "
            "of Ports::operator[] and collapsePath, imported unchanged",
-           "abstract runtime object (child object or NULL per sub-tree address, answer per toggle) in place of the callbacks"]
-LEVEL_TEXT = ("Lean theorems: walk_eq_enumerate_partial / walk_restores_buffer / walked_address_dispatches hold for all "
-              "well-formed trees of any depth and size, every prefix and every buffer with enough room (no bound); the models "
-              "they are about are compared with the compiled implementation (ASan/UBSan, exact-size allocations) on thousands "
-              "of generated trees per run, and an independent Python reference of the statement (enumeration, buffer, "
-              "dispatch, pruning) is evaluated on the implementation's output")
+           "abstract runtime object (child object or NULL per sub-tree address, answer T / F / integer per enabling port) in "
+           "place of the callbacks; the scratch buffers char[1024] of walk_ports_recurse are not modelled (assumption on the "
+           "address length)"]
+LEVEL_TEXT = ("Lean theorems: walk_eq_enumerate_partial / walk_reports_exactly_once / walk_restores_buffer / "
+              "walked_address_dispatches hold for all well-formed trees of any depth and size, every prefix and every buffer "
+              "with enough room (no bound); the models they are about are compared with the compiled implementation "
+              "(ASan/UBSan, names in exact-size allocations) on thousands of generated trees per run, and an independent Python "
+              "reference of the statement (enumeration as a multiset, buffer, dispatch, pruning) is evaluated on the "
+              "implementation's output")
 LEVEL_NOTE = ("walk_eq_enumerate is partial: leaf names with more than one '#' are excluded (known finding C09-K1, "
-              "walk_eq_enumerate_counterexample).  walk_prunes is partial: proved on the abstract runtime for NULL pointers "
-              "over the whole tree (walk_prunes_partial) and for the toggles one level at a time (walk_prunes_gate, "
-              "walk_prunes_toggle, walk_prunes_subport_toggle); the full clause walk_prunes_statement is checked by correspondence and oracle on the "
-              "compiled trees only")
+              "walk_eq_enumerate_counterexample).  The pruning clause is proved in full on the abstract runtime "
+              "(walk_prunes: NULL pointers and 'enabled by' ports answering T / F / an integer, at every depth, with the "
+              "buffer restored) for sub-tree names of one path component and guards placed where port_is_enabled looks "
+              "for them (GuardsOK, PathPrefix); for multi-component sub-tree names only pruning by NULL pointers is proved "
+              "(walk_prunes_partial).  What the runtime object answers (get_value_from_runtime, Capture, the sugar "
+              "callbacks) is outside the Lean model: it is tied by correspondence on the four compiled trees.  "
+              "walked_address_dispatches is about rtosc_match_path level by level (C05's model); that Ports::dispatch "
+              "and the type part of the pattern then deliver the message to that port's callback (dispatchSim in the "
+              "driver) is compared with the implementation but not proved.  The theorems fix the order of the reports; "
+              "the statement does not, and harness, driver and oracle compare multisets")
 TECHNIQUE = "machine-checked proof over a hand-written executable model + differential correspondence + independent oracle"
 
 
@@ -651,13 +685,13 @@ def gen_runtime(rng, tier, stats):
         must, opn = pruned(table, obj, eff)
         buf = make_buffer(rng, prefix, needs[tid] + SPARE + rng.randint(0, 40), st)
         toks = []
-        # buffer_size: the size of the block, or less.  A tree with sub-tree ports keeps 32 spare bytes
-        # (walk_ports_recurse0 asserts that much in debug builds), a flat table needs no more than the longest
-        # address it reports and its terminator
+        # buffer_size: the size of the block, or less.  Where debug builds assert spare room (walk_ports_recurse0: 32
+        # bytes, bundle_foreach: 17) it stays; a table without sub-tree ports that switches itself off writes
+        # nothing: there the size may be as small as the address of its toggle plus the terminator
         r = rng.random()
         if r < 0.5:
-            longest = max([len(a) for _, a in must + opn] + [len(eff)])
-            if is_flat(table):
+            if is_flat(table) and not must:
+                longest = max([len(a) for _, a in opn] + [len(eff)])
                 toks.append("sz=%d" % (longest + 1 + rng.randint(0, 4)))
                 st["tight_size"] += 1
             else:
@@ -670,13 +704,102 @@ def gen_runtime(rng, tier, stats):
         yield "R %d %s %s %s %s" % (tid, ts, show_obj(obj), hx(buf), " ".join(toks))
 
 
+# ------------------------------------------------------------------ generator: runtime on random trees
+def flat_sub_name(p):
+    """a sub-tree name of one path component (what "../" in port_is_enabled removes)"""
+    w = parse_name(p.name)
+    return (w.slash and b"/" not in w.head and w.head not in (b"..", b"")
+            and all(b"/" not in t for _, t in w.parts))
+
+
+def guard_block(g):
+    return b":enabled by\0=" + g + b"\0\0"
+
+
+def add_guards(rng, table, stats, counter):
+    """put "enabled by" properties on a random tree: on a table's own self: port, on a sub-tree port naming a port of
+    the same table, on a sub-tree port without '#' naming a port of its own table (name/port); the enabling ports are
+    new rows q<nn>::T:F or q<nn>::i"""
+    def new_toggle(tab):
+        counter[0] += 1
+        kind = b"::T:F" if rng.random() < 0.65 else b"::i"
+        tab.append(Port(b"q%02d" % counter[0] + kind, None, None))
+        return b"q%02d" % counter[0]
+    subs = [p for p in table if p.sub is not None]
+    for p in subs:
+        add_guards(rng, p.sub, stats, counter)
+    for p in subs:
+        if counter[0] >= 95 or not flat_sub_name(p) or rng.random() < 0.4:
+            continue
+        w = parse_name(p.name)
+        if not w.parts and rng.random() < 0.4:
+            t = new_toggle(p.sub)
+            p.meta = guard_block(w.head + b"/" + t)
+            stats["inner_guards"] = stats.get("inner_guards", 0) + 1
+        else:
+            old = [lit(q.name) for q in table if q.sub is None and q.name.startswith(b"q")]
+            t = rng.choice(old) if old and rng.random() < 0.3 else new_toggle(table)
+            p.meta = guard_block(t)
+            stats["sibling_guards"] = stats.get("sibling_guards", 0) + 1
+    if counter[0] < 95 and rng.random() < 0.35 and table_index(table, b"self:") is None:
+        old = [lit(q.name) for q in table if q.sub is None and q.name.startswith(b"q")]
+        t = rng.choice(old) if old and rng.random() < 0.3 else new_toggle(table)
+        table.insert(rng.randint(0, len(table)), Port(b"self:", guard_block(t), None))
+        stats["self_guards"] = stats.get("self_guards", 0) + 1
+
+
+def rand_dyn_obj(rng, table, stats):
+    tog, kids = {}, {}
+    for p in table:
+        if p.sub is None:
+            if p.name.startswith(b"q"):
+                if p.name.endswith(b"::T:F"):
+                    tog[lit(p.name)] = ("b", int(rng.random() < 0.65))
+                else:
+                    tog[lit(p.name)] = ("i", rng.choice(INT_ANSWERS))
+        else:
+            w = parse_name(p.name)
+            for a in expand(w.parts):
+                rel = w.head + a + b"/"
+                if rng.random() < 0.15:
+                    kids[rel] = None
+                    stats["null_pointers"] = stats.get("null_pointers", 0) + 1
+                else:
+                    kids[rel] = rand_dyn_obj(rng, p.sub, stats)
+    return (tog, kids)
+
+
+def gen_dynamic(rng, tier, stats):
+    st = stats.setdefault("dynamic_runtime", {"cases": 0, "depth_hist": {}})
+    n = 2500 if tier == "quick" else 35000
+    made = 0
+    while made < n:
+        depth = rng.choice([2, 2, 3, 3, 4])
+        tree = rand_tree(rng, depth, False, st, 150)
+        if not tree_ok(tree) or multi_hash_leaf(tree):
+            continue
+        add_guards(rng, tree, st, [0])
+        assert tree_ok(tree), show_tree(tree)
+        obj = rand_dyn_obj(rng, tree, st)
+        prefix = rng.choice([b"", b"/", b"/pre/", b"/a0/b/", b"/x/y/z/"])
+        eff = prefix or b"/"
+        must, opn = pruned(tree, obj, eff)
+        buf = make_buffer(rng, prefix, need(tree) + SPARE + rng.randint(0, 40), st)
+        made += 1
+        st["cases"] += 1
+        st["depth_hist"][str(depth)] = st["depth_hist"].get(str(depth), 0) + 1
+        st["open_reports"] = st.get("open_reports", 0) + len(opn)
+        yield "D %s %s %s opt=%s" % (show_tree(tree), show_obj(obj), hx(buf),
+                                     ",".join(pair_key(ix, a) for ix, a in opn) or "-")
+
+
 def generate(rng, tier, stats):
     # W and R cases interleaved (the runner splits the op list into contiguous chunks for the model)
-    gw, gr = gen_static(rng, tier, stats), gen_runtime(rng, tier, stats)
+    gw, gr, gd = gen_static(rng, tier, stats), gen_runtime(rng, tier, stats), gen_dynamic(rng, tier, stats)
     live = True
     while live:
         live = False
-        for g, k in ((gw, 3), (gr, 1)):
+        for g, k in ((gw, 3), (gr, 1), (gd, 1)):
             for op in itertools.islice(g, k):
                 live = True
                 yield op
@@ -757,8 +880,34 @@ def op_tokens(words):
 
 def oracle(op, out):
     w = op.split()
-    if not w or w[0] not in ("W", "R"):
+    if not w or w[0] not in ("W", "R", "D"):
         return None
+    if w[0] == "D":
+        tree = parse_tree(w[1])
+        if not tree_ok(tree) or multi_hash_leaf(tree):
+            return None
+        obj = parse_obj(w[2])
+        buf = unhx(w[3])
+        prefix = buf[:buf.index(0)]
+        eff = prefix or b"/"
+        if not prefix and (len(buf) < 2 or buf[1] != 0):
+            return None
+        if len(buf) < len(eff) + need(tree) + 1:
+            return None
+        must, opn = pruned(tree, obj, eff)
+        if out.startswith("crash") or out in ("W oob", "W undef", "bad-op"):
+            return "walk with runtime did not complete: " + out
+        got = parse_out(out)
+        if got is None:
+            return "unreadable output: " + out[:80]
+        _, dropped = op_tokens(w[4:])
+        allowed = list(opn)
+        for k in dropped:
+            for j, (ix, a) in enumerate(allowed):
+                if pair_key(ix, a) == k:
+                    del allowed[j]
+                    break
+        return check_calls(got, must, allowed, eff, lambda ix: disp_mode(tree, ix))
     if w[0] == "W":
         if w[3] != "10":
             return None
